@@ -4,13 +4,27 @@ def main(tier, args):
     t0 = time.time()
     exe = vf.build("C04/signals", [vf.VERIF + "/checks/C04/harness.cpp"], vf.module_sources("event", exclude=("event/common_loop_signal.cpp",)), mode="asan",
                    plain_srcs=[vf.VERIF + "/engine/sched/log_stub.cpp"])
-    depth, dl = (6, 80) if tier == "quick" else (8, 1200)
+    depth, depth_b, depth_c, dl = (6, 6, 6, 80) if tier == "quick" else (8, 7, 12, 1200)
     res = vf.Result(); log = open(vf.BUILD + "/C04/log.txt", "w")
-    jobs = [("%s:sentinel%d" % (e, s), [exe, e, str(depth), str(s)]) for e in ("epoll", "select") for s in (0, 1, 2)]
+    jobs = [("%s:cfg%d:A" % (e, c), [exe, e, str(depth), str(c), "A"]) for e in ("epoll", "select") for c in (0, 1, 2)]
+    jobs += [("%s:cfg1:B" % e, [exe, e, str(depth_b), "1", "B"], {"VERIF_WORKERS": "2"}) for e in ("epoll", "select")]
+    jobs += [("%s:cfg%d:C" % (e, c), [exe, e, str(depth_c), str(c), "C"], {"VERIF_WORKERS": "2"}) for e in ("epoll", "select") for c in (0, 1, 2)]
+    jobs += [("%s:cfg1:Ci" % e, [exe, e, str(depth_c), "1", "Ci"], {"VERIF_WORKERS": "2"}) for e in ("epoll", "select")]
     if args.only: jobs = [j for j in jobs if j[0] == args.only]
     vf.run_procs(res, jobs, env={"VERIF_DEADLINE_S": str(dl), "VERIF_WORKERS": "3"}, log=log)
     vf.finish(PID, tier, res, t0,
-              rule="BFS (depth %d, canonical-state dedup) over all histories of enable/disable/destroy on 5 real SignalEvents (single signal, two-signal set, one-shot on one signal, one-shot on a two-signal set) spread over two loops on two threads driven in lock-step, "
-                   "interleaved with raise(SIGUSR1|SIGUSR2) + one pass of every loop; pre-installed disposition in {SIG_IGN, plain handler with mask+flags, SA_SIGINFO handler}; fork per evaluation; "
-                   "oracle: exactly one callback per enabled subscriber on its loop's thread, none for others, old handler invoked once, one-shot at most once, sigaction() equals the pre-subscription disposition whenever a signal has no subscriber" % depth,
-              assumptions=["signals are raised one at a time while no subscription change is in progress (as stated in the property)", "disposition compared as handler + sa_mask + (sa_flags & ~SA_RESTORER) (glibc always adds SA_RESTORER)"])
+              rule="BFS with canonical-state dedup over op histories on real SignalEvents spread over two loops on two threads driven in lock-step (fork per evaluation); events: e0 {USR1} L0, e1 {USR1,USR2} L0, e2 one-shot {USR1} L1, e3 {USR2} L1, e4 one-shot {USR1,USR2} L0, e5 {SIGKILL} L0; "
+                   "all three initialize() overloads are used (int: e0,e2,e3,e5; initializer_list: e1; std::set: e4). "
+                   "Lane A (depth %d, both engines x 3 disposition configs): enable/disable/destroy on e0..e4 + raise(USR1|USR2) on the controller thread followed by one pass of every loop. "
+                   "Lane B (depth %d, both engines, config 1): enable/disable on e0..e4 + deliveries raised on a loop's own thread and several deliveries before one pass (USR1 twice; USR1 then USR2; 10xUSR1+USR2 = 11; 21 alternating: more than two reads of 10). "
+                   "Lane C (depth %d, both engines x 3 configs) re-subscription: enable/disable on e0,e1,e2 + enable(e5) (sigaction fails: enable must return false and subscribe nothing) + single deliveries, with the state key extended by saturating model counters "
+                   "'loop l dropped its last subscriber before' / 'signal s was restored before' and by 'deferred tasks still queued on loop l', so tear-down -> (pass | no pass) -> subscribe again -> deliveries is explored; lane Ci = lane C with every enable/disable issued from a runNext task inside a kOnce pass (config 1). "
+                   "Pre-installed dispositions (USR1,USR2) in {(SIG_IGN,SIG_DFL), (plain handler, SA_SIGINFO handler), (SIG_DFL, plain handler)}, each signal with its own handler function, sa_mask and sa_flags; a delivery that would hit a (restored) SIG_DFL is not offered. "
+                   "Oracle (reference model only): per delivery script every enabled persistent subscriber gets exactly as many callbacks per signal as that signal was delivered, with that signal number, on its loop's thread; a one-shot exactly one; nobody else any; "
+                   "the pre-installed handler of each signal is invoked once per delivery of its own signal with (signo, siginfo->si_signo, non-null context) and never for the other signal; isEnabled() agrees with the model; enable() returns true (false for e5); "
+                   "each loop thread's signal mask is the same after every operation as at thread start; sigaction() equals the pre-subscription disposition whenever a signal has no subscriber and after every event has been destroyed" % (depth, depth_b, depth_c),
+              assumptions=["deliveries happen only while no subscription change is in progress and subscription changes are never made inside a signal callback apart from the one-shot's own self-disable (DESIGN 1.7)",
+                           "disposition compared as handler + sa_mask + (sa_flags & ~SA_RESTORER) (glibc always adds SA_RESTORER)",
+                           "several deliveries before one pass: the one-shot clause (at most once) takes precedence over one-callback-per-delivery; order of callbacks between signals is not checked",
+                           "lanes B and C use reduced event sets / one disposition config (B, Ci); lane A's state key does not contain the re-subscription counters (lane C's does)",
+                           "a set mixing a catchable and an uncatchable signal (e6 = {USR1,SIGSTOP}) is only operated with C04_MIXED_UNCATCHABLE_SET=1 (default off: the current code leaves USR1 subscribed after the failed enable, see the harness header)"])
